@@ -226,7 +226,7 @@ SCENARIOS = [
     {0: ([3], [5, 0]), 1: ([3], [5]), 3: ([], [])},
     {0: ([0, 7, 8], [0, 10, 4, 9]), 1: ([0], [0]), 3: ([0], [9])},
     # one text row detected as a chain of three fragments (A-B and B-C close, A-C far apart) + a separate line, inside the wide rectangle
-    {0: ([1], ['f0', 'f1', 'f2', 'f3']), 1: ([], []), 3: ([], [])},
+    {0: ([1, 9], ['f0', 'f1', 'f2', 'f3']), 1: ([], []), 3: ([], [])},        # region 9 receives no line at all
 ]
 FRAGMENTS = {'f0': [(8, 26), (14, 26.2)], 'f1': [(16, 26.2), (28, 26.6), (40, 26.2)], 'f2': [(42, 26.2), (50, 26)], 'f3': [(10, 36), (50, 36.4)]}
 
